@@ -378,7 +378,6 @@ func isPositionGetter(w *World, f *ssa.Function) bool {
 	return len(rets) > 0
 }
 
-
 // handsOutOnlyAfter: every way a return of f yields a non-nil first result (directly, or as an alternative of a phi) is
 // reached on the nil edge of a nil test of gate (the error of the announcement).
 func handsOutOnlyAfter(f *ssa.Function, gate ssa.Value) bool {
